@@ -70,9 +70,11 @@ def _network(st, estimation, history, physics, n_steps, save_steps=False):
     return tg, ss, events, fp
 
 
-def _config(physics, output, n_steps, estimation, history, save_steps=False):
+def _config(physics, output, n_steps, estimation, history, save_steps=False, span_steps=None):
+    """``span_steps``: configured span (start..stop_timestamp) in steps; default covers the run. A run may legally go
+    PAST the configured span (``resonaate -t <hours>`` does): the epochs beyond it are then created by the saves."""
     tg, ss, events, fp = _network(START, estimation, history, physics, n_steps, save_steps)
-    return scen.config(START, n_steps + 1, [scen.engine(1, tg, ss)], physics=physics, output=output,
+    return scen.config(START, (n_steps + 1) if span_steps is None else span_steps, [scen.engine(1, tg, ss)], physics=physics, output=output,
                        truth_only=not estimation, events=events, filter_params=fp, seed=3)
 
 
@@ -107,6 +109,12 @@ def items(tier, seed):
     out.append(("audit", 3600, 7200, 26, True, "none", "single", [26], False))
     out.append(("audit", 3600, 7200, 26, True, "none", "split13", [13, 26], False))
     out.append(("audit", 3600, 3600, 25, False, "none", "single", [25], False))
+    # runs that go PAST the configured span (2 steps configured): epochs beyond it are not pre-inserted by the clock
+    for (p, o) in ((60, 60), (60, 300), (300, 60), (120, 300)):
+        for est in (True, False):
+            for pname, plan in (("single", [n]), ("split2", [2, n]), ("each_step", list(range(1, n + 1)))):
+                out.append(("audit", p, o, n, est, "none", pname, plan, False, 2))
+    out.append(("audit", 60, 60, n, True, "maneuver", "single", [n], True, 2))
     crash_n = 3 if tier == "quick" else 5
     for est in (True, False):
         for hist in ("none", "agents"):
@@ -173,7 +181,10 @@ def _audit(res, sc, saves, case, item, truth_only):
         chk("epoch_timestamp_matches_jd", not bad, "epochs/timestamp_jd_mismatch", observed=bad[:2])
         jdset = set(jds)
         # every step epoch of the run has its row (records buffered at non-output steps refer to them)
-        want_iso = [(START + timedelta(seconds=k * case["physics"])).isoformat(timespec="microseconds") for k in range(case["steps"] + 1)]
+        # (inside the configured span the clock inserts them; beyond it the saves do, so only up to the last save)
+        last_saved = max(round((datetime.fromisoformat(s_["iso"]) - START).total_seconds()) for s_ in saves) // case["physics"]
+        upto = max(min(case["configured_span_steps"], case["steps"]), last_saved)
+        want_iso = [(START + timedelta(seconds=k * case["physics"])).isoformat(timespec="microseconds") for k in range(upto + 1)]
         missing_ep = [w for w in want_iso if w not in set(isos)]
         chk("epochs_cover_every_step", not missing_ep, "epochs/step_epoch_missing", observed=missing_ep[:3], expected=len(want_iso))
         agents = {int(r[0]) for r in _rows(conn, "SELECT unique_id FROM agents")}
@@ -248,13 +259,15 @@ def _audit(res, sc, saves, case, item, truth_only):
 
 
 def _run_audit(res, item):
-    _, physics, output, n, est, hist, pname, plan, save_steps = item
-    cfg = _config(physics, output, n, est, hist, save_steps)
+    _, physics, output, n, est, hist, pname, plan, save_steps = item[:9]
+    span_steps = item[9] if len(item) > 9 else None
+    cfg = _config(physics, output, n, est, hist, save_steps, span_steps)
     sc = scen.build(cfg)
     rec = Recorder(sc)
     # the initial save happened in the constructor: reconstruct its reference from the initial objects
     init = rec.snapshot()
-    case = {"physics": physics, "output": output, "steps": n, "estimation": est, "history": hist, "plan": pname, "save_filter_steps": save_steps}
+    case = {"physics": physics, "output": output, "steps": n, "estimation": est, "history": hist, "plan": pname, "save_filter_steps": save_steps,
+            "configured_span_steps": span_steps if span_steps is not None else n + 1}
     err = None
     # initial snapshot must be taken at time 0: rebuild to be exact
     if float(sc.clock.time) != 0.0:
@@ -273,7 +286,7 @@ def _run_audit(res, item):
             sc.propagateTo(datetimeToJulianDate(START + timedelta(seconds=upto * physics)))
     except Exception as exc:  # noqa: BLE001
         err = f"{type(exc).__name__}: {exc}"
-    nontriv = output != physics or len(plan) > 1 or hist != "none"
+    nontriv = output != physics or len(plan) > 1 or hist != "none" or span_steps is not None
     res.case("audit/run", case, err is None and calls == n, nontrivial=nontriv, signature="C09/run/error_or_step_count",
              observed={"error": err, "steps": calls}, expected={"steps": n}, item=item)
     saves = [init] + rec.saves
